@@ -7,4 +7,13 @@ TABLE = [
     ("POLL_WINDOW_SECS", "ntp-proto/src/source.rs", r"const POLL_WINDOW: std::time::Duration = std::time::Duration::from_secs\((\d+)\);", "int"),
     ("STARTUP_TRIES_THRESHOLD", "ntp-proto/src/source.rs", r"const STARTUP_TRIES_THRESHOLD: usize = (\d+);", "int"),
     ("AFTER_UPGRADE_TRIES_THRESHOLD", "ntp-proto/src/source.rs", r"const AFTER_UPGRADE_TRIES_THRESHOLD: u32 = (\d+);", "int"),
+    # handle_timer: buffer size and the margin kept when asking for new cookies (C13/C14)
+    ("POLL_BUFFER_LEN", "ntp-proto/src/source.rs", r"buffer: \[u8; (\d+)\],", "int"),
+    ("POLL_COOKIE_MARGIN", "ntp-proto/src/source.rs", r"\(\(self\.buffer\.len\(\) - (\d+)\) / \(cookie\.len\(\)\.max\(1\)\)\)\.min\(u8::MAX as usize\) as u8", "int"),
+    # census of the places that touch the reach register / tries counter / deny flag (C11)
+    ("N_REACH_POLL_CALLS", "ntp-proto/src/source.rs", r"\.reach\.poll\(\)", "count"),
+    ("N_REACH_RECEIVED_CALLS", "ntp-proto/src/source.rs", r"\.reach\.received_packet\(\)", "count"),
+    ("N_DENY_FLAG_WRITES", "ntp-proto/src/source.rs", r"self\.have_deny_rstr_response = ", "count"),
+    ("N_COOKIE_STORE_CALLS", "ntp-proto/src/source.rs", r"\.cookies\.store\(", "count"),
+    ("N_COOKIE_GET_CALLS", "ntp-proto/src/source.rs", r"\.cookies\.get\(\)", "count"),
 ]
